@@ -348,6 +348,17 @@ class RoundTrips(Bounded):
                         repl[0] = mk(rng)
                         check("Emulsion", repl, f"{cname} d{dim} assigned into an emulsion of {c2}")
                         break
+            # one class, different data layouts (numbers of amplitudes) in one collection: writing must raise or round-trip
+            from droplets.droplets import PerturbedDroplet2D, PerturbedDroplet3D
+            for mkp, dimp in ((lambda n_: PerturbedDroplet2D([1.0, 2.0], 3.0, 0.5, [0.1 * (q + 1) for q in range(n_)]), 2),
+                              (lambda n_: PerturbedDroplet3D([1.0, 2.0, 0.5], 3.0, 0.5, [0.1 * (q + 1) for q in range(n_)]), 3)):
+                for na, nb in ((2, 1), (1, 2), (4, 2)):
+                    a, b = mkp(na), mkp(nb)
+                    lab = f"amplitude counts {na}+{nb} d{dimp}"
+                    check("Emulsion", Emulsion([a, b]), lab)
+                    check("DropletTrack", DropletTrack(droplets=[a, b], times=[0, 1]), lab)
+                    check("DropletTrackList", DropletTrackList([DropletTrack(droplets=[a, b], times=[0, 1])]), lab)
+                    check("EmulsionTimeCourse", EmulsionTimeCourse([Emulsion([a, b])], times=[0]), lab)
             # collections mixing droplet classes: writing must raise or round-trip, never silently change a class
             for (c1, d1, m1), (c2, d2, m2) in itertools.combinations(mat, 2):
                 if d1 != d2 or c1 == c2:
@@ -947,6 +958,8 @@ def sym_member(run, i, extra=None):
     dt = Sym("dtype", attrs={"descr": [Descr(CLS_OF(i))]})
     # two classes may share one dtype (PerturbedDroplet3D / 3DAxisSym): the dtype is a function of the record, not an injective image of the class
     dt.sym_set_key = lambda run2: DTYPE_OF(i)
+    dt.dtype_term = DTYPE_OF(i)
+    dt.sym_eq = lambda E, other: (DTYPE_OF(i) == other.dtype_term) if hasattr(other, "dtype_term") else False
     rec = Sym(f"data[{i}]", term=ROW_OF(i), methods={"tolist": lambda run2, a, k: (RowFields(ROW_OF(i)),)}, attrs={"dtype": dt})
     at = {"__class__": ClassOf(CLS_OF(i)), "data": rec}
     at.update(extra or {})
@@ -1298,12 +1311,13 @@ class TrackData(Contract):
         return dict(self=me)
 
     def _mixed(self):
+        """members of more than one class, or of one class but with different data layouts (numbers of amplitudes): rows of ONE dtype cannot hold them"""
         run, mem, n, times = self.ctx
         i, j = z3.Ints("gi gj")
-        return z3.Exists([i, j], z3.And(i >= 0, i < n, j >= 0, j < n, CLS_OF(i) != CLS_OF(j)))
+        return z3.Exists([i, j], z3.And(i >= 0, i < n, j >= 0, j < n, z3.Or(CLS_OF(i) != CLS_OF(j), DTYPE_OF(i) != DTYPE_OF(j))))
 
     def raises(self, a, exc, case):
-        return [(f"DropletTrack.data raises only TypeError, and only for a track mixing droplet classes (raised {exc.cls_name})",
+        return [(f"DropletTrack.data raises only TypeError, and only for a track mixing droplet classes or data layouts (raised {exc.cls_name})",
                  z3.And(z3.BoolVal(exc.cls_name == "TypeError"), self._mixed()))]
 
     def post(self, a, ret, case):
@@ -1311,7 +1325,7 @@ class TrackData(Contract):
         if case["empty"]:
             return [("an empty track has no data array", ret is None)]
         st = run.ghost["track_data"].get("store")
-        out = [("a track mixing droplet classes is refused (its single class tag could not describe every row)", z3.Not(self._mixed())),
+        out = [("a track mixing droplet classes or data layouts is refused (its single class tag / the dtype of its first member could not describe every row)", z3.Not(self._mixed())),
                ("the array has one row per entry", z3.And(z3.BoolVal(st is not None and ret is st), to_z3(st.n) == n) if st is not None else False)]
         if st is not None:
             dt = st.dtype
